@@ -254,3 +254,29 @@ def allItems (s : DqStore α) : List α := s.flatMap (fun e => e.2.2.items)
 
 end DqStore
 end Tulz
+
+namespace Tulz
+variable {α : Type} [DecidableEq α]
+
+/-- a whole history on the slot-level model: fails as soon as one operation fails -/
+def RbStore.run (s : RbStore α) : List (RbOp α) → M (RbStore α × List (RbOut α))
+  | [] => pure (s, [])
+  | op :: ops => do
+    let (s', o) ← RbStore.step s op
+    let (s'', os) ← RbStore.run s' ops
+    pure (s'', o :: os)
+
+/-- the same history on the bounded-deque specification -/
+def DqStore.run (t : DqStore α) : List (RbOp α) → DqStore α × List (RbOut α)
+  | [] => (t, [])
+  | op :: ops =>
+    let r := DqStore.step t op
+    let r' := DqStore.run r.1 ops
+    (r'.1, r.2 :: r'.2)
+
+/-- every operation of the history respects its documented precondition in the state in which it is issued -/
+def DqStore.validFrom (t : DqStore α) : List (RbOp α) → Prop
+  | [] => True
+  | op :: ops => DqStore.valid t op ∧ DqStore.validFrom (DqStore.step t op).1 ops
+
+end Tulz
